@@ -21,6 +21,7 @@ structure Dir where
   body : Option (Bytes × Int × Int)      -- BodyCoords: file, begin, end
   explicit : Bool
   file : Bytes
+  fid : Nat := 0                         -- which opened instance of the file (Go: *fs.File identity)
   kwBegin : Int
   kwEnd : Int
   trace : List (Bytes × Int)             -- include trace captured at creation: (file, at), innermost first
@@ -153,6 +154,7 @@ structure FileScan where
   name : Bytes
   env : Env
   sc : Sc St
+  id : Nat := 0          -- instance number of the opened file (the root is 0)
 
 /-- model file system: cleaned path relative to the project directory ↦ content, or a directory -/
 inductive FsEntry where
@@ -174,6 +176,7 @@ structure Core where
   tracers : List (Bytes × List (Bytes × Int)) := []   -- includeTracers cache keyed by (hash of) includer name
   accesses : List (String × Bytes) := []               -- observed os.Stat / os.ReadFile calls, newest first
   resumed : Bool := false                               -- resumedAfterInclude
+  nextId : Nat := 1
 
 /-- the live include trace: innermost first -/
 def Core.liveTrace (c : Core) : List (Bytes × Int) := c.suspended.map (fun p => (p.1.name, p.2))
@@ -194,9 +197,17 @@ def ctxErrMsg (e : CtxErr) : String :=
   | .nothingToClose => "nothing to close with this closing parenthesis, learn more about the explicit direcitve boundaries here: https://jsight.io/docs/jsight-api-0-3#boundaries-of-the-body-of-the-directive"
   | .notClosed => "this opening parenthesis is not closed, learn more about the explicit direcitve boundaries here: https://jsight.io/docs/jsight-api-0-3#boundaries-of-the-body-of-the-directive"
 
+/-- Stack.AddIncludeTraceToError for an error located in the file instance `fid`: if that file is
+    suspended, only the chain that leads to it (the items pushed before it) -/
+def Core.liveTraceFor (c : Core) (fid : Nat) : List (Bytes × Int) :=
+  let outerFirst := c.suspended.reverse
+  match outerFirst.findIdx? (fun p => p.1.id == fid) with
+  | some i => ((outerFirst.take i).map (fun p => (p.1.name, p.2))).reverse
+  | none => c.liveTrace
+
 /-- Directive.KeywordError, then scanProject's deferred AddIncludeTraceToError (only if the error has no trace yet) -/
 def Core.dirError (c : Core) (d : Dir) (msg : String) : PErr :=
-  ⟨msg, d.file, d.kwBegin, if d.trace.isEmpty then c.liveTrace else d.trace, c.accesses⟩
+  ⟨msg, d.file, d.kwBegin, if d.trace.isEmpty then c.liveTraceFor d.fid else d.trace, c.accesses⟩
 
 /-- core.japiError: located in the current scanner's file; the live trace is added by scanProject's defer -/
 def Core.japiError (c : Core) (msg : String) (idx : Int) : PErr := ⟨msg, c.current.name, idx, c.liveTrace, c.accesses⟩
@@ -236,7 +247,7 @@ def Core.onLexeme (c : Core) (l : Lexeme) : Except PFault Core :=
           | some k =>
             let (tr, c) := c.tracerFor
             .ok { c with cur := some { kind := k, keyword := kw, named := [], unnamed := [], ann := [], body := none,
-                                        explicit := false, file := c.current.name, kwBegin := l.b, kwEnd := l.e, trace := tr } }
+                                        explicit := false, file := c.current.name, fid := c.current.id, kwBegin := l.b, kwEnd := l.e, trace := tr } }
   | .Parameter =>
     match c.cur with
     | none => .error (.panic "processParameter: currentDirective is nil")
@@ -313,15 +324,17 @@ def nameErrMsg : NameErr → String
   | .up => "cannot contain `..` or `.`"
   | .sep => "directories must be separated by slashes `/`"
 
+/-- one step of filepath.Clean over path segments (accumulator is reversed) -/
+def cleanStep (acc : List Bytes) (s : Bytes) : List Bytes :=
+  if s == [] || s == [46] then acc
+  else if s == [46, 46] then
+    match acc with
+    | top :: rest => if top == [46, 46] then s :: acc else rest
+    | [] => [s]
+  else s :: acc
+
 /-- filepath.Clean on a relative slash-separated path (segments) -/
-def cleanSegs (segs : List Bytes) : List Bytes :=
-  (segs.foldl (fun (acc : List Bytes) s =>
-    if s == [] || s == [46] then acc
-    else if s == [46, 46] then
-      match acc with
-      | top :: rest => if top == [46, 46] then s :: acc else rest
-      | [] => [s]
-    else s :: acc) []).reverse
+def cleanSegs (segs : List Bytes) : List Bytes := (segs.foldl cleanStep []).reverse
 
 def joinSegs (segs : List Bytes) : Bytes :=
   match segs with
@@ -377,7 +390,8 @@ def Core.processInclude (c : Core) (fsys : FileSys) (kw : Lexeme) : Except PFaul
               else
                 let env := mkEnv content lenAt
                 .ok { c with suspended := (c.current, kw.b) :: c.suspended,
-                             current := { name := abs, env := env, sc := Sc.init .stateRoot } }
+                             current := { name := abs, env := env, sc := Sc.init .stateRoot, id := c.nextId },
+                             nextId := c.nextId + 1 }
 
 /-- drainCurrentScanner / processEOF / isScanningFinished, fuel-bounded -/
 def Core.run (fsys : FileSys) : Nat → Core → Except PFault Core
